@@ -175,7 +175,7 @@ def run(ctx):
                 "delivery / forwarding / confirm checked against an independent evaluation of EN 302 931 (|F| < 1e-6 excluded) "
                 "and compared with the model; non-trivial = verdict outside the tolerance band; distinct by (kind, area, inside)")
     rs.stack.patch_time()
-    run_cases(ctx, 4200 if ctx.tier == "quick" else 60000)
+    run_cases(ctx, 9000 if ctx.tier == "quick" else 60000)
     ctx.exhaustive = False
 
 
